@@ -27,6 +27,9 @@ func (c *containerServer) handleExecve(cmd *execCmd, msg unixsocket.Msg) error {
 		// release files after execve
 		defer closeFds(msg.Fds)
 	}
+	if len(cmd.Argv) == 0 {
+		return c.sendErrorReply("handle: no argument provided")
+	}
 
 	// if fexecve, then the first fd must be executable
 	if cmd.FdExec {
